@@ -343,12 +343,11 @@ func checkC05(p *Prog, r *Result, tier string) {
 							if sel, ok := unparen(as.Rhs[i]).(*ast.SelectorExpr); ok && sel.Sel.Name == "CPUMap" {
 								originObj := fn.objOf(sel.X)
 								sameAmount := false
-								fn.inspectBody(func(z ast.Node) bool {
-									is, ok := z.(*ast.IfStmt)
-									if !ok || !(is.Body.Pos() <= as.Pos() && as.End() <= is.Body.End()) {
-										return true
+								forEachCondBranch(fn.Body, func(cond ast.Expr, body []ast.Stmt, _ ast.Node) {
+									if len(body) == 0 || !(body[0].Pos() <= as.Pos() && as.End() <= body[len(body)-1].End()) {
+										return
 									}
-									for _, cj := range splitOp(is.Cond, token.LAND) {
+									for _, cj := range splitOp(cond, token.LAND) {
 										be, ok := unparen(cj).(*ast.BinaryExpr)
 										if !ok || be.Op != token.EQL {
 											continue
@@ -362,7 +361,6 @@ func checkC05(p *Prog, r *Result, tier string) {
 											}
 										}
 									}
-									return true
 								})
 								if sameAmount {
 									continue
